@@ -82,18 +82,26 @@ KWDS = [{}, {'libraries': ['m']}, {'define_macros': [('C23_X', '1')], 'extra_com
 # specs (pure function of the seed; used by parent, children and the strace worker)
 
 def change_line_ends(src, rnd):
-    """the same C source with other line ends (nothing else changes)"""
-    if '\r\n' in src and rnd.random() < 0.7:
-        return src.replace('\r\n', '\n'), 'crlf-to-lf'
-    if '\r' in src and '\r\n' not in src and rnd.random() < 0.7:
-        return src.replace('\r', '\n'), 'cr-to-lf'
-    how = rnd.choice(['all-lf-to-crlf', 'one-lf-to-crlf', 'one-lf-to-cr', 'all-lf-to-cr'])
-    rep = '\r' if how.endswith('-cr') else '\r\n'
-    lone = [m.start() for m in re.finditer(r'(?<!\r)\n', src)]
-    if how.startswith('all'):
-        return re.sub(r'(?<!\r)\n', rep, src), how
-    k = rnd.choice(lone)
-    return src[:k] + rep + src[k + 1:], how
+    """the same C source with other line ends (nothing else changes); returns (source, how)"""
+    crlf = [m.start() for m in re.finditer(r'\r\n', src)]
+    lf = [m.start() for m in re.finditer(r'(?<!\r)\n', src)]
+    cr = [m.start() for m in re.finditer(r'\r(?!\n)', src)]
+    opts = []
+    if crlf:
+        opts += ['all-crlf-to-lf', 'all-crlf-to-lf', 'one-crlf-to-lf', 'one-crlf-to-cr']
+    if cr:
+        opts += ['all-cr-to-lf', 'one-cr-to-crlf']
+    if lf:
+        opts += ['all-lf-to-crlf', 'one-lf-to-crlf', 'one-lf-to-cr', 'all-lf-to-cr']
+    how = rnd.choice(opts)
+    which, old, _, new = how.split('-')
+    at, old, new = ({'crlf': crlf, 'lf': lf, 'cr': cr}[old], {'crlf': '\r\n', 'lf': '\n', 'cr': '\r'}[old],
+                    {'crlf': '\r\n', 'lf': '\n', 'cr': '\r'}[new])
+    if which == 'one':
+        at = [rnd.choice(at)]
+    for k in reversed(at):
+        src = src[:k] + new + src[k + len(old):]
+    return src, how
 
 
 def make_base(seed, n, tag, mode, rnd, nd):
